@@ -95,6 +95,41 @@ fn rt() -> tokio::runtime::Runtime { tokio::runtime::Builder::new_current_thread
 pub fn run_roundtrip(ctx: &mut Ctx) {
     let ncases = if ctx.quick() { 60 } else { 700 };
     let rt = rt();
+    // ---- full-size xorbs of incompressible data (monitor only: 64 MiB are not sent through the model): the largest legal xorb,
+    //      MAX_XORB_BYTES of data in maximum-size chunks, stored / on the LZ4 fallback path, so that the SERIALIZED form is longer
+    //      than MAX_XORB_BYTES by the chunk headers
+    {
+        let mut rng = ctx.rng.fork(6999);
+        let max_bytes = *deduplication::constants::MAX_XORB_BYTES;
+        let max_chunk = *deduplication::constants::TARGET_CHUNK_SIZE * *deduplication::constants::MAXIMUM_CHUNK_MULTIPLIER;
+        let kinds: Vec<u64> = if ctx.quick() { vec![ctx.seed % 2] } else { vec![0, 1, 2] };
+        for kind in kinds {
+            let (clen, n) = match kind { 0 | 1 => (max_chunk, max_bytes / max_chunk), _ => (max_chunk / 2, 2 * (max_bytes / max_chunk)) };
+            if n == 0 || n > *deduplication::constants::MAX_XORB_CHUNKS || n * clen > (80 << 20) { continue; }
+            let chunks: Vec<Vec<u8>> = (0..n).map(|_| rng.bytes(clen)).collect();
+            let scheme = if kind == 0 { Some(CompressionScheme::None) } else { Some(CompressionScheme::LZ4) };
+            let b = build(&chunks, scheme);
+            let replay = format!("{{\"suite\":\"xorb\",\"seed\":{},\"full_xorb_kind\":{},\"n\":{},\"chunk_len\":{},\"data\":\"random bytes\"}}", ctx.seed, kind, n, clen);
+            ctx.stat("full_size_incompressible_xorbs");
+            match CasObject::deserialize(&mut Cursor::new(&b.obj)) {
+                Err(e) => ctx.fail("C07", "deserialize-valid", format!("CasObject::deserialize rejects a full-size xorb that serialize_given_info just wrote ({n} chunks of {clen} bytes): {e:?}"), replay.clone()),
+                Ok(cas) => {
+                    match cas.get_all_bytes(&mut Cursor::new(&b.obj)) {
+                        Ok(g) if g == b.data => {}
+                        Ok(_) => ctx.fail("C07", "all-bytes-roundtrip", format!("get_all_bytes != input for a full-size xorb ({n} chunks of {clen} incompressible bytes, serialized {} bytes)", b.obj.len()), replay.clone()),
+                        Err(e) => ctx.fail("C07", "all-bytes-roundtrip", format!("get_all_bytes fails on a full-size valid xorb ({n} chunks of {clen} incompressible bytes, serialized {} bytes): {e:?}", b.obj.len()), replay.clone()),
+                    }
+                    for (i, j) in [(0u32, n as u32), (1, n as u32), (0, n as u32 - 1), (n as u32 / 2, n as u32)] {
+                        let want = &b.data[i as usize * clen..j as usize * clen];
+                        match cas.get_bytes_by_chunk_range(&mut Cursor::new(&b.obj), i, j) { Ok(g) if g == want => {}, r => ctx.fail("C07", "range-roundtrip", format!("get_bytes_by_chunk_range({i},{j}) of a full-size valid xorb ({n} chunks of {clen} incompressible bytes) != input slice: {}", match r { Ok(g) => format!("{} bytes", g.len()), Err(e) => format!("{e:?}") }), replay.clone()) }
+                    }
+                    let clen_ser = *cas.info.chunk_boundary_offsets.last().unwrap() as usize;
+                    let mut w = Vec::new();
+                    match cas_object::deserialize_chunks_to_writer(&mut Cursor::new(&b.obj[..clen_ser]), &mut w) { Ok(_) if w == b.data => {}, _ => ctx.fail("C07", "decoder-output", format!("decoder output != input for a full-size xorb ({n} chunks)"), replay.clone()) }
+                }
+            }
+        }
+    }
     for case_no in 0..ncases {
         let mut rng = ctx.rng.fork(7000 + case_no);
         // the first cases of a run are many-chunk xorbs of tiny chunks: chunk counts around the powers of two, around the
